@@ -2314,6 +2314,24 @@ Example src_eof_sent_after_ignored_fault :
   src_run None (rev (log_s later)) = Some (Some (1, 0, false)).
 Proof. vm_compute. repeat split; reflexivity. Qed.
 
+(* receiver, acknowledged mode: a File Data PDU that overshoots the file size of the EOF arrives while missing data is
+   awaited and fills the gap (F35 repair): File-Segment-Recv, the cancel callback of File Size Error, and
+   Transaction-Finished with THAT condition (data incomplete), in this order in the one call; accepted *)
+Definition ox_overshoot_calls : list dcall :=
+  [DSm (Some (PMetadata (ox_hd ACKED) true CK_NULL 5 (Some ([1], [2])) []));
+   DSm (Some (PFileData (ox_hd ACKED) 0 [3; 10; 17; 24]));
+   DSm (Some (PEof (ox_hd ACKED) C_NO_ERROR [0; 0; 0; 0] 5 None))] ++ ox_gets ++ [DSm None] ++ ox_gets ++
+  [DSm (Some (PFileData (ox_hd ACKED) 4 [31; 38; 45; 52]))] ++ ox_gets.
+Example dst_cancel_condition_stands :
+  let s0 := dst_init (ox_l 2 (ox_r 1 ACKED true)) in
+  let before := dfinal (firstn 10 ox_overshoot_calls) s0 in
+  let after := dfinal (firstn 11 ox_overshoot_calls) s0 in
+  d_step before = DS_WAITING_FOR_MISSING_DATA /\
+  log_d after = EvFinished 1 7 C_FILE_SIZE_ERROR DATA_INCOMPLETE FS_RETAINED None ::
+                EvFault FH_CANCEL 1 7 C_FILE_SIZE_ERROR 4 :: EvSegmentRecv 1 7 4 4 :: log_d before /\
+  (exists s, dhist ox_overshoot_calls s0 None = Some (s, Some (1, 7, true, true))).
+Proof. vm_compute. repeat split; try reflexivity. eexists; reflexivity. Qed.
+
 (* ---- what the model does NOT guarantee (statements of the draft that are false; the model follows the code) *)
 (* receiver, Transaction-Finished "at most once": a cancel request after the completion (while the Finished PDU is
    sent / its ACK awaited) completes the transaction again, every time *)
